@@ -174,3 +174,7 @@ def run(ctx):
     ctx.guarded(r, lambda rule: SC.r_transformable(rule, ("Interval", "Grad", "f32")))
     r = ctx.rule("R2f", "[resolved program] VarMap fields are never assigned outside construction", 8)
     ctx.guarded(r, FR.send_sync_inventory, ctx)
+    from .. import a64checks as XC
+
+    r = ctx.rule("R1d", "aarch64 native code reads variable slot i at i * (bytes per slot) from x0 and writes output i likewise", 19)
+    ctx.guarded(r, XC.check_strides)
